@@ -19,6 +19,7 @@ CONSTANTS
   Record = FALSE
   History = FALSE
   Depth = 0
+  Edges = FALSE
   Deviations = {"OversizeWedge"}
 INVARIANTS EmitTables
 CHECK_DEADLOCK FALSE
